@@ -309,6 +309,12 @@ def origin_of(U):
     return dns.name.Name([bytes(lb) for lb in U["origin"]] + [b""])
 
 
+def origins(U):
+    """origin id of the universe -> dns.name.Name ("none" -> None)"""
+    return {"none": None, "org": origin_of(U),
+            "sub": dns.name.Name([bytes(lb) for lb in U["suborigin"]] + [b""])}
+
+
 def mk_style(st, origin, relativize):
     return dns.rdata.RdataStyle(origin=origin, relativize=relativize, txt_is_utf8=st["utf8"],
                                 base64_chunk_size=st["b64"], base64_chunk_separator=st["b64sep"],
@@ -324,7 +330,7 @@ def refs(cls, code, w0, O):
     """the reference objects a parsed record is compared with: the same RDATA decoded with and
     without relativization to the origin"""
     out = []
-    for o in (O, None):
+    for o in (O, None, _ORG["sub"]):
         try:
             out.append(dns.rdata.from_wire(cls, code, w0, 0, len(w0), o))
         except Exception:  # noqa: BLE001
@@ -332,7 +338,7 @@ def refs(cls, code, w0, O):
     return out
 
 
-def parsed_fields(ev, rd1, O, ref, rd0):
+def parsed_fields(ev, rd1, O, ref, rd0, want_sub=False):
     """what is recorded about a record obtained from text: its encoding, equality with the two
     reference objects, and whether it can be turned into text again"""
     try:
@@ -343,6 +349,12 @@ def parsed_fields(ev, rd1, O, ref, rd0):
         _exc(ev, "enc", e)
         ev["wire1"] = [-1]
     ev["eq0"] = bool(rd1 == rd0)
+    if want_sub:
+        try:
+            ev["wire1s"] = list(rd1.to_wire(origin=_ORG["sub"]))
+        except Exception:  # noqa: BLE001
+            ev["wire1s"] = [-1]
+    ev["eqs"] = bool(ref[2] is not None and rd1 == ref[2])
     ev["eqr"] = bool(ref[0] is not None and rd1 == ref[0])
     ev["eqa"] = bool(ref[1] is not None and rd1 == ref[1])
     try:
@@ -354,27 +366,34 @@ def parsed_fields(ev, rd1, O, ref, rd0):
 
 def rt_event(rd0, cls, code, O, oc, st, ref):
     ev = {"op": "rt", "oc": oc["id"], "st": st["id"], "text": "ok", "parse": "skip", "enc": "skip", "wire1": [-1],
-          "eq0": False, "eqr": False, "eqa": False, "t2": "skip"}
+          "eq0": False, "eqr": False, "eqa": False, "eqs": False, "t2": "skip"}
+    sub = "sub" in (oc["op"], oc["relto"])
+    if sub:
+        ev["wire1s"] = [-1]
     try:
-        text = rd0.to_styled_text(mk_style(st, O if oc["ot"] == "org" else None, oc["rt"]))
+        text = rd0.to_styled_text(mk_style(st, _ORG[oc["ot"]], oc["rt"]))
     except Exception as e:  # noqa: BLE001
         _exc(ev, "text", e)
         return ev
     ev["txt"] = text[:100]
     try:
-        rd1 = dns.rdata.from_text(cls, code, text, origin=O if oc["op"] == "org" else None, relativize=oc["rp"])
+        rd1 = dns.rdata.from_text(cls, code, text, origin=_ORG[oc["op"]], relativize=oc["rp"],
+                                  relativize_to=_ORG[oc["relto"]])
         ev["parse"] = "ok"
     except Exception as e:  # noqa: BLE001
         _exc(ev, "parse", e)
         return ev
-    parsed_fields(ev, rd1, O, ref, rd0)
+    parsed_fields(ev, rd1, O, ref, rd0, sub)
     return ev
 
 
 def gen_event(rd0, cls, code, O, gc, ref):
     """RFC 3597 generic form of the record, parsed back as the record's own type"""
     ev = {"op": "gen", "gc": gc["id"], "text": "ok", "parse": "skip", "enc": "skip", "wire1": [-1],
-          "eq0": False, "eqr": False, "eqa": False, "t2": "skip"}
+          "eq0": False, "eqr": False, "eqa": False, "eqs": False, "t2": "skip"}
+    sub = "sub" in (gc["op"], gc["relto"])
+    if sub:
+        ev["wire1s"] = [-1]
     try:
         text = rd0.to_generic(origin=O).to_text()
     except Exception as e:  # noqa: BLE001
@@ -382,19 +401,21 @@ def gen_event(rd0, cls, code, O, gc, ref):
         return ev
     ev["txt"] = text[:100]
     try:
-        rd1 = dns.rdata.from_text(cls, code, text, origin=O if gc["op"] == "org" else None, relativize=gc["rp"])
+        rd1 = dns.rdata.from_text(cls, code, text, origin=_ORG[gc["op"]], relativize=gc["rp"],
+                                  relativize_to=_ORG[gc["relto"]])
         ev["parse"] = "ok"
     except Exception as e:  # noqa: BLE001
         _exc(ev, "parse", e)
         return ev
-    parsed_fields(ev, rd1, O, ref, rd0)
+    parsed_fields(ev, rd1, O, ref, rd0, sub)
     return ev
 
 
-def config_list(U, nameish):
-    """(origin config, style) pairs: every origin configuration under the default style (only
-    "plain" for types without embedded names), every style under the plain configuration"""
-    ocs = sorted(U["orgconfigs"], key=lambda c: c["id"])
+def config_list(U, nameish, base="abs"):
+    """(origin config, style) pairs: every origin configuration the universe declares applicable
+    to a record of this base, under the default style (only "plain" for types without embedded
+    names); every style under the plain configuration"""
+    ocs = sorted((c for c in U["orgconfigs"] if c["id"] in U["applicable"][base]), key=lambda c: c["id"])
     sts = sorted(U["styles"], key=lambda s: s["id"])
     dflt = [s for s in sts if s["id"] == "default"][0]
     plain = [c for c in ocs if c["id"] == "plain"][0]
@@ -426,7 +447,7 @@ def wire_trace(U, job, oin):
     # the generic form gets its own trace: a rejected trace is judged up to its first failing
     # event only, and the two groups exercise different code
     if part == "rt":
-        for oc, st in config_list(U, job["names"]):
+        for oc, st in config_list(U, job["names"], "org" if oin == "org" else "abs"):
             tr["ev"].append(rt_event(rd0, cls, code, O, oc, st, ref))
     else:
         for gc in sorted(U["genconfigs"], key=lambda c: c["id"]):
@@ -436,11 +457,13 @@ def wire_trace(U, job, oin):
 
 
 _U = None
+_ORG = {"none": None, "org": None, "sub": None}
 
 
 def set_universe(U):
-    global _U
+    global _U, _ORG
     _U = U
+    _ORG = origins(U)
 
 
 def run_wire(job):
@@ -517,8 +540,15 @@ def text_trace(U, job):
     except Exception as e:  # noqa: BLE001
         _exc(src, "enc", e)
         return tr
+    # projection of the record's state: does it hold relative names (text without an origin keeps them)
+    try:
+        rd0.to_wire()
+    except dns.name.NeedAbsoluteNameOrOrigin:
+        src["trel"] = True
+    except Exception:  # noqa: BLE001
+        pass
     ref = refs(cls, code, w0, O)
-    for oc, st in config_list(U, job["names"]):
+    for oc, st in config_list(U, job["names"], "org" if src["trel"] else "abs"):
         if st["id"] in ("default", "nochunk"):
             tr["ev"].append(rt_event(rd0, cls, code, O, oc, st, ref))
     return tr
